@@ -1246,7 +1246,9 @@ def run(ctx):
             rules = set()
             undis = 0
             for (p, e) in evs:
-                r = discharge(ctx, body, p, e, kind)
+                # a call the evaluator re-expressed (slice.split_at(i) as the pair slice[..i], slice[i..]) is judged as what it was re-expressed as
+                k_ = "call:" + e.name if kind.startswith("call:") and e.kind == "call" and e.data.get("dest") is None and e.name != kind[5:] else kind
+                r = discharge(ctx, body, p, e, k_)
                 if r:
                     rules.add(r)
                 else:
